@@ -12,7 +12,7 @@ LEVEL = 'exploration'
 BUDGET = {'quick': 20, 'thorough': 240}
 STREAM_ORDER = ['ops', 'guards', 'mat', 'chart', 'cfg']
 RULE = ('well-formed chart drawn per run whose guards are P.tguard(i, event, after(d), idle(d2), time), whose states carry invariants '
-        'P.tcond(j, after(d), idle(d2), time), half of whose states carry a postcondition P.tpost(j, after(d), time), half of whose transitions carry an invariant P.ttinv(i, idle(d), time) and whose entry/exit/action code logs the `time` variable; contract checking is on. The '
+        'P.tcond(j, after(d), idle(d2), time), half of whose states carry a postcondition P.tpost(j, after(d), time), half of whose transitions carry an invariant P.ttinv(i, idle(d), time), a third of whose transitions carry a postcondition P.ttpost(i, after(d), time) and whose entry/exit/action code logs the `time` variable; contract checking is on. The '
         'interpreter clock is a SkewClock (a larger value at every read) in half of the runs and a SimClock moved from inside probe calls '
         '(i.e. during the step) in the other half - half of those count integer ticks from 2**62+3, which no double represents; a third of the rest use decimal times (0.1, 0.3, ...) and only check that every evaluation of one predicate about one state in one step gives the same answer -; advances are drawn from {0, exactly d, d -/+ one tick, large}. Every time observation '
         '(generated code cannot raise by itself: a CodeEvaluationError is a violation) of a step must equal the first clock value read by execute_once (in a third of the runs on a skewing or plain clock the chart also sends events, with delays, and events are queued with a delay between steps: neither moves anybody\'s time, and a step that finds an internal event due samples the clock like any other), and every logged after/idle value must equal the exact '
@@ -52,6 +52,11 @@ def run(ch, tier):
     for t in sp.trans:
         if tp.flag(1, 2):
             t.tinv_idle = tp.pick([0, 1, 2, 0.5])
+    # transition postconditions that use after(): evaluated after the action, about the source state (left by then unless the
+    # transition is internal) - its entry stamp is still the one the guard saw
+    for t in sp.trans:
+        if tp.flag(1, 3):
+            t.tpost_after = tp.pick([0, 1, 2, 0.5])
     # decimal mode: times and durations that no double represents exactly (0.1, 0.3, ...).  What a predicate answers on a boundary
     # then depends on rounding, so the exact model is switched off; what remains is that after(d) / idle(d) is a *function* of
     # (step time, stamp, d): a guard and a contract of the same state asking the same question in the same step agree
@@ -61,6 +66,7 @@ def run(ch, tier):
             t.tg_after = None if t.tg_after is None else d0
             t.tg_idle = None if t.tg_idle is None else d0
             t.tinv_idle = None if t.tinv_idle is None else d0
+            t.tpost_after = None if t.tpost_after is None else d0
         for s_ in sp.states.values():
             s_.tinv = [(j, None if a is None else d0, None if i is None else d0) for j, a, i in s_.tinv]
             s_.tpost = [(j, d0) for j, a in s_.tpost]
@@ -77,6 +83,7 @@ def run(ch, tier):
             s_.tpost = [(j, int(a * 64)) for j, a in s_.tpost]
         for t in sp.trans:
             t.tinv_idle = None if t.tinv_idle is None else int(t.tinv_idle * 64)
+            t.tpost_after = None if t.tpost_after is None else int(t.tpost_after * 64)
     clock = SkewClock() if skew else IntClock() if bigint else SimClock()
     sim = Sim(sp, clock=clock, ignore_contract=False, statechart=materialise(sp, ch, res))
     moves = [0]
@@ -207,6 +214,24 @@ def run(ch, tier):
                 return res.fail('after', 'after() in the postconditions of the states left by this step evaluated to %r (condition id, value), '
                                 'the entry stamps prescribe %r' % (got_tp, want_tp), **ctx)
             res.stats['after_in_state_postconditions_checked'] += len(want_tp)
+            # after() in the postconditions of the transitions this step fired: about the source state, with the entry stamp it
+            # had when the transition started
+            stamp = dict(r.entry_before)
+            want_tt = []
+            for m in r.ms.steps:
+                if m.transition is not None:
+                    t = sp.trans[tid(m.transition)]
+                    if t.tpost_after is not None:
+                        want_tt.append((t.i, (T - stamp[t.src]) >= F(t.tpost_after)))
+                for sname in m.entered_states:
+                    stamp[sname] = T
+            got_tt = [(e[1], e[2]) for e in r.log if e[0] == 'ttpost']
+            if [e for e in r.log if e[0] == 'ttpost' and F(e[3]) != T]:
+                return res.fail('time-variable', 'a transition postcondition saw another time than the step time %r' % float(T), **ctx)
+            if got_tt != want_tt:
+                return res.fail('after', 'after() in the postconditions of the transitions fired by this step evaluated to %r (transition, value), '
+                                'the entry stamps of their source states prescribe %r' % (got_tt, want_tt), **ctx)
+            res.stats['after_in_transition_postconditions_checked'] += len(want_tt)
             # idle() in the invariants of the transitions this step fired: the first of the two evaluations (before the action)
             # still sees the stamp the guard saw - the transition has not fired yet; the second one (after the action) is
             # not pinned down by the property
